@@ -77,6 +77,11 @@ type transUnit struct {
 	// such a parameter is an `Option`; `p == nil` is `isNone`, any other use dereferences it (nil = panic).  The
 	// sub-message fields of the mirrored structures are always nullable.
 	Nullable map[string][]string
+	// IfaceSum: an interface of this package whose values are built from SEVERAL concrete types (`mapping.FromProto`
+	// returns a different mapping per interpolation) -> the concrete (pointer-to-)struct types.  The unit emits
+	// `inductive I | nil | T1 (v : T1) | …`; a result declared with the interface has this type, every returned value
+	// is wrapped in the constructor of its static type.
+	IfaceSum map[string][]string
 }
 
 // an interface of another package: a type variable with a class of method signatures (DDS/Model/GoIface.lean);
@@ -471,6 +476,9 @@ func (t *tr) leanType(ty types.Type) string {
 			if is, ok := t.unit.Ifaces[t.pkg.Name()+"."+u.Obj().Name()]; ok {
 				return is.TyVar
 			}
+			if _, ok := t.unit.IfaceSum[u.Obj().Name()]; ok {
+				return t.sumType(u.Obj().Name())
+			}
 		}
 		if _, ok := u.Underlying().(*types.Struct); ok && u.Obj().Pkg() == t.pkg {
 			if t.unit.Mode == "mops" {
@@ -484,6 +492,69 @@ func (t *tr) leanType(ty types.Type) string {
 		return t.leanType(u.Underlying())
 	}
 	panic(trErr{"unsupported type " + ty.String()})
+}
+
+func (t *tr) sumType(name string) string {
+	if t.unit.Mode == "mops" {
+		return "(" + t.unit.NS + "." + name + " F)"
+	}
+	return t.unit.NS + "." + name
+}
+
+// a value returned for result i of the current function, whose static type is `from` (nil: the literal `nil`): wrapped
+// in the constructor of the sum when the result is an interface of IfaceSum
+func (t *tr) sumWrap(n ast.Node, i int, v string, from types.Type) string {
+	nm, ok := t.cur.sig.Results().At(i).Type().(*types.Named)
+	if !ok || nm.Obj().Pkg() != t.pkg {
+		return v
+	}
+	alts, ok := t.unit.IfaceSum[nm.Obj().Name()]
+	if !ok {
+		return v
+	}
+	if from == nil {
+		return t.unit.NS + "." + nm.Obj().Name() + ".nil"
+	}
+	if types.Identical(from, nm) {
+		return v
+	}
+	if p, ok := from.(*types.Pointer); ok {
+		from = p.Elem()
+	}
+	if fn, ok := from.(*types.Named); ok && fn.Obj().Pkg() == t.pkg {
+		for _, a := range alts {
+			if a == fn.Obj().Name() {
+				return "(" + t.unit.NS + "." + nm.Obj().Name() + "." + a + " " + v + ")"
+			}
+		}
+	}
+	t.fail(n, "value of type %s returned for the interface %s is not one of its declared concrete types", from, nm.Obj().Name())
+	return ""
+}
+
+func (t *tr) emitSums() {
+	var names []string
+	for n := range t.unit.IfaceSum {
+		names = append(names, n)
+	}
+	sort.Strings(names)
+	for _, n := range names {
+		fmt.Fprintf(&t.out, "/-- a value of the Go interface `%s`: nil, or a pointer to a value of one of these concrete types -/\n", n)
+		if t.unit.Mode == "mops" {
+			fmt.Fprintf(&t.out, "inductive %s (F : Type) where\n", n)
+		} else {
+			fmt.Fprintf(&t.out, "inductive %s where\n", n)
+		}
+		t.out.WriteString("  | nil\n")
+		for _, a := range t.unit.IfaceSum[n] {
+			tn, ok := t.pkg.Scope().Lookup(a).(*types.TypeName)
+			if !ok {
+				panic(trErr{"IfaceSum: type " + a + " not found"})
+			}
+			fmt.Fprintf(&t.out, "  | %s (v : %s)\n", a, t.leanType(tn.Type()))
+		}
+		t.out.WriteString("\n")
+	}
 }
 
 // a function value: pointer parameters are passed by value and returned first; always fallible.  In state-passing
@@ -2937,7 +3008,11 @@ func (t *tr) stmt(s ast.Stmt, sc *sctx, kf func() string) string {
 						for i := 0; i < fi.sig.Results().Len(); i++ {
 							n := t.tmp()
 							lhs = append(lhs, ast.NewIdent(n))
-							names = append(names, n)
+							if fi.sig.Results().Len() == t.cur.sig.Results().Len() {
+								names = append(names, t.sumWrap(call, i, n, fi.sig.Results().At(i).Type()))
+							} else {
+								names = append(names, n)
+							}
 						}
 						return t.callStmt(call, lhs, true, sc, t.ret(tuple(append(vals, names...)), sc))
 					}
@@ -2951,6 +3026,10 @@ func (t *tr) stmt(s ast.Stmt, sc *sctx, kf func() string) string {
 			// `return nil, err` for a pointer-to-struct result: the struct's zero value
 			if id, ok := r.(*ast.Ident); ok && id.Name == "nil" {
 				rt := t.cur.sig.Results().At(i).Type()
+				if w := t.sumWrap(r, i, "", nil); w != "" {
+					vals = append(vals, w)
+					continue
+				}
 				if p, ok := rt.(*types.Pointer); ok {
 					vals = append(vals, t.zero(r, p.Elem()))
 					continue
@@ -2960,7 +3039,11 @@ func (t *tr) stmt(s ast.Stmt, sc *sctx, kf func() string) string {
 					continue
 				}
 			}
-			vals = append(vals, t.expr(r, c))
+			if i < t.cur.sig.Results().Len() && len(x.Results) == t.cur.sig.Results().Len() {
+				vals = append(vals, t.sumWrap(r, i, t.expr(r, c), t.typeOf(r)))
+			} else {
+				vals = append(vals, t.expr(r, c))
+			}
 		}
 		return t.wrapHoists(*hs, t.ret(tuple(vals), sc), sc)
 	case *ast.BranchStmt:
@@ -3159,6 +3242,9 @@ func (t *tr) paramType(fi *funcInfo, p *types.Var) string {
 func (t *tr) resultType(fi *funcInfo, i int) string {
 	rt := fi.sig.Results().At(i).Type()
 	if nm, ok := rt.(*types.Named); ok && nm.Obj().Pkg() == t.pkg {
+		if _, sum := t.unit.IfaceSum[nm.Obj().Name()]; sum {
+			return t.sumType(nm.Obj().Name())
+		}
 		if _, isI := nm.Underlying().(*types.Interface); isI && fi.decl != nil {
 			conc := ""
 			ast.Inspect(fi.decl.Body, func(m ast.Node) bool {
@@ -3687,7 +3773,7 @@ func (t *tr) analyseRes() {
 			if fi.res {
 				continue
 			}
-			r := false
+			r := len(t.unit.Nullable[fi.key]) > 0 // dereferences a nullable pointer: checked
 			ast.Inspect(fi.decl.Body, func(m ast.Node) bool {
 				switch e := m.(type) {
 				case *ast.IndexExpr:
@@ -4248,6 +4334,7 @@ func translateUnit(repo string, u transUnit) (text string, errMsg string) {
 	if u.Base == nil {
 		t.emitStructs()
 	}
+	t.emitSums()
 	// emit variables and functions in dependency order: the listed order of Funcs, with each variable
 	// emitted right after the functions its initialiser needs (variables are listed in order)
 	emittedVar := map[string]bool{}
@@ -5647,4 +5734,40 @@ var mappingProtoUnit = withPb(extend(&transUnits[3], "CodeMappingProto", "DDS.Ge
 
 func init() {
 	transUnits = append(transUnits, denseFromProtoUnit, mappingProtoUnit)
+}
+
+// `mapping.FromProto`: a nil message is an error; the result is the interface, a sum over the three kinds of mapping
+var mappingFromProtoUnit = func() transUnit {
+	u := withPb(extend(&transUnits[3], "CodeMappingFromProto", "DDS.Gen.MappingFromProto", "FromProto"), "F")
+	u.Nullable = map[string][]string{"FromProto": {"m"}}
+	u.IfaceSum = map[string][]string{"IndexMapping": {"LogarithmicMapping", "LinearlyInterpolatedMapping", "CubicallyInterpolatedMapping"}}
+	return u
+}()
+
+func init() {
+	transUnits = append(transUnits, mappingFromProtoUnit)
+}
+
+// the sketch level: `DDSketch.ToProto` and `FromProtoWithStoreProvider`, generic over the two interfaces.  The protobuf
+// methods of the interfaces live in the second classes `GoPb.MapPbI`, `GoPb.StorePbI` (extra binders of this unit: the
+// classes MapI / StoreI and their instances are untouched); `mapping.FromProto` is the class method
+// `MapPbI.FromProto` (as `MapI.Decode` stands for `mapping.Decode`), `store.MergeWithProto` is the regenerated generic
+// function of CodeStoreProto.  `ddsketch.FromProto` (the same with `store.DenseStoreConstructor`) is the instance at
+// the dense store and is not a generic function.
+var sketchProtoUnit = func() transUnit {
+	u := withPb(extend(&sketchUnit, "CodeSketchProto", "DDS.Gen.SketchProto", "DDSketch.ToProto", "FromProtoWithStoreProvider"), "F64")
+	u.TypeParams = sketchUnit.TypeParams + " [GoPb.MapPbI M] [GoPb.StorePbI S]"
+	u.Imports = append(u.Imports, "DDS.Generated.CodeStoreProto")
+	mi, si := sketchUnit.Ifaces["mapping.IndexMapping"], sketchUnit.Ifaces["store.Store"]
+	mi.MethodClass = map[string]string{"ToProto": "GoPb.MapPbI"}
+	si.MethodClass = map[string]string{"ToProto": "GoPb.StorePbI"}
+	u.Ifaces = map[string]ifaceSpec{"mapping.IndexMapping": mi, "store.Store": si}
+	u.ExternFuncs = mergeExterns(sketchUnit.ExternFuncs, map[string]externFn{
+		"store.MergeWithProto": {Lean: "DDS.Gen.StoreProto.MergeWithProto", Res: true, Ord: true, MutParams: []int{0}},
+		"mapping.FromProto":    {Lean: "GoPb.MapPbI.FromProto (M := M)", OptParams: []int{0}}})
+	return u
+}()
+
+func init() {
+	transUnits = append(transUnits, sketchProtoUnit)
 }
